@@ -45,6 +45,7 @@ fn cmp<S: QueryStatementWriter + std::fmt::Debug>(ctx: &mut crate::Ctx, what: &s
     }
 }
 
+fn al(e: SimpleExpr, name: &str) -> SelectExpr { SelectExpr { expr: e, alias: Some(sea_query::SeaRc::new(id(name))), window: None } }
 fn sel(a: &A) -> SelectStatement { let mut s = Query::select(); s.column(id(&a.a)).from(id(&a.t)); s }
 fn sub(a: &A) -> SelectStatement { let mut s = Query::select(); s.column(id(&a.b)).from(id(&a.u)).and_where(a.e2.clone()); s }
 
@@ -240,6 +241,109 @@ pub fn run(ctx: &mut crate::Ctx) {
             pair!("on_conflict.exprs", ins({ let mut oc = OnConflict::new(); oc.exprs([a.e1.clone(), a.e2.clone()]).do_nothing(); oc }), ins({ let mut oc = OnConflict::new(); oc.expr(a.e1.clone()).expr(a.e2.clone()).do_nothing(); oc }));
             pair!("on_conflict.values", ins({ let mut oc = base(); oc.values([(id(&a.a), a.e1.clone()), (id(&a.c), a.e2.clone())]); oc }), ins({ let mut oc = base(); oc.value(id(&a.a), a.e1.clone()).value(id(&a.c), a.e2.clone()); oc }));
             pair!("on_conflict.update_columns", ins({ let mut oc = OnConflict::column(id(&a.a)); oc.update_columns([id(&a.b), id(&a.c)]); oc }), ins({ let mut oc = OnConflict::column(id(&a.a)); oc.update_column(id(&a.b)).update_column(id(&a.c)); oc }));
+        }
+        // ---- WITH: the forwarding setters of WithQuery, the field-wise setters of Search / Cycle / CommonTableExpression
+        {
+            let rec = || { let mut s = Query::select(); s.column(id(&a.a)).from(id(&a.t)).union(UnionType::All, { let mut r = Query::select(); r.column(id(&a.a)).from(id("cte")).and_where(a.e1.clone()); r }); s };
+            let cte = || CommonTableExpression::new().query(rec()).column(id(&a.a)).table_name(id("cte")).to_owned();
+            let fin = || { let mut s = Query::select(); s.column(Asterisk).from(id("cte")); s };
+            let search = || Search::new_from_order_and_expr(SearchOrder::BREADTH, al(Expr::col(id(&a.a)).into(), "ord"));
+            let cycle = || Cycle::new_from_expr_set_using(Expr::col(id(&a.a)), id("looped"), id("path"));
+            let general = || WithClause::new().recursive(true).cte(cte()).search(search()).cycle(cycle()).to_owned().query(fin());
+            pair!("WithQuery setters", { let mut w = WithQuery::new(); w.recursive(true).cte(cte()).search(search()).cycle(cycle()).query(fin()); w }, general());
+            pair!("WithQuery setters (query first)", { let mut w = WithQuery::new(); w.query(fin()).cycle(cycle()).search(search()).cte(cte()).recursive(true); w }, general());
+            pair!("WithQuery::with_clause", { let mut w = WithQuery::new(); w.query(fin()).with_clause(WithClause::new().recursive(true).cte(cte()).search(search()).cycle(cycle()).to_owned()); w }, general());
+            pair!("WithQuery::with_clause replaces", { let mut w = WithQuery::new(); w.recursive(false).cte(CommonTableExpression::from_select(sub(&a))).with_clause(WithClause::new().recursive(true).cte(cte()).search(search()).cycle(cycle()).to_owned()).query(fin()); w }, general());
+            pair!("Search setters", WithClause::new().recursive(true).cte(cte()).search({ let mut x = Search::new(); x.expr(al(Expr::col(id(&a.a)).into(), "ord")).order(SearchOrder::BREADTH); x }).cycle(cycle()).to_owned().query(fin()), general());
+            pair!("Search setters (set twice)", WithClause::new().recursive(true).cte(cte()).search({ let mut x = Search::new(); x.order(SearchOrder::DEPTH).expr(al(Expr::col(id(&a.b)).into(), "zz")).expr(al(Expr::col(id(&a.a)).into(), "ord")).order(SearchOrder::BREADTH); x }).cycle(cycle()).to_owned().query(fin()), general());
+            pair!("Cycle setters", WithClause::new().recursive(true).cte(cte()).search(search()).cycle({ let mut x = Cycle::new(); x.using(id("path")).set(id("looped")).expr(Expr::col(id(&a.a))); x }).to_owned().query(fin()), general());
+            pair!("Cycle setters (set twice)", WithClause::new().recursive(true).cte(cte()).search(search()).cycle({ let mut x = Cycle::new(); x.expr(a.e2.clone()).set(id("path")).using(id("looped")).set(id("looped")).using(id("path")).expr(Expr::col(id(&a.a))); x }).to_owned().query(fin()), general());
+            pair!("search / cycle replaced", WithClause::new().recursive(true).search(Search::new_from_order_and_expr(SearchOrder::DEPTH, al(Expr::col(id(&a.b)).into(), "zz"))).cycle(Cycle::new_from_expr_set_using(a.e2.clone(), id("p"), id("q"))).cte(cte()).search(search()).cycle(cycle()).to_owned().query(fin()), general());
+            let two = || { let mut s = Query::select(); s.column(id(&a.a)).expr_as(a.e1.clone(), id(&a.b)).from(id(&a.t)); s };
+            let q2 = |c: CommonTableExpression| WithClause::new().cte(c).to_owned().query(fin());
+            pair!("cte.column twice", q2(CommonTableExpression::new().query(two()).table_name(id("cte")).column(id(&a.a)).column(id(&a.b)).to_owned()), q2(CommonTableExpression::new().query(two()).table_name(id("cte")).columns([id(&a.a), id(&a.b)]).to_owned()));
+            pair!("cte.columns then column", q2(CommonTableExpression::new().query(two()).table_name(id("cte")).columns([id(&a.a)]).column(id(&a.b)).to_owned()), q2(CommonTableExpression::new().query(two()).table_name(id("cte")).columns([id(&a.a), id(&a.b)]).to_owned()));
+            pair!("cte.try_set_cols_from_select", q2({ let mut c = CommonTableExpression::new(); c.query(two()).table_name(id("cte")); assert!(c.try_set_cols_from_select(&two())); c }), q2(CommonTableExpression::new().query(two()).table_name(id("cte")).columns([id(&a.a), id(&a.b)]).to_owned()));
+            pair!("cte.try_set_cols_from_select (refused)", q2({ let mut c = CommonTableExpression::new(); c.query(two()).table_name(id("cte")).column(id(&a.c)); let unnamed = { let mut s = Query::select(); s.column(id(&a.a)).expr(Func::count(Expr::col(id(&a.b)))).from(id(&a.t)); s }; assert!(!c.try_set_cols_from_select(&unnamed)); c }), q2(CommonTableExpression::new().query(two()).table_name(id("cte")).columns([id(&a.c)]).to_owned()));
+            pair!("cte.materialized set twice", q2(CommonTableExpression::new().query(two()).table_name(id("cte")).materialized(true).materialized(false).to_owned()), q2(CommonTableExpression::new().query(two()).table_name(id("cte")).materialized(false).to_owned()));
+            pair!("select.exprs_mut_for_each (identity)", { let mut s = two(); s.exprs_mut_for_each(|_| {}); s }, two());
+            pair!("select.exprs_mut_for_each (alias)", { let mut s = Query::select(); s.column(id(&a.a)).expr(a.e1.clone()).from(id(&a.t)); let mut k = 0; s.exprs_mut_for_each(|e| { if k == 1 { e.alias = Some(sea_query::SeaRc::new(id(&a.b))); } k += 1; }); s }, two());
+        }
+        // ---- statements finished by `.with(clause)` / started by `Query::with()`
+        {
+            let wc = || WithClause::new().cte(CommonTableExpression::new().query(sub(&a)).table_name(id("cte")).to_owned()).to_owned();
+            pair!("select.with", sel(&a).with(wc()), wc().query(sel(&a)));
+            pair!("update.with", { let mut u = Query::update(); u.table(id(&a.t)).value(id(&a.a), a.v1.clone()).and_where(a.e1.clone()); u.with(wc()) }, { let mut u = Query::update(); u.table(id(&a.t)).value(id(&a.a), a.v1.clone()).and_where(a.e1.clone()); wc().query(u) });
+            pair!("delete.with", { let mut d = Query::delete(); d.from_table(id(&a.t)).and_where(a.e1.clone()); d.with(wc()) }, { let mut d = Query::delete(); d.from_table(id(&a.t)).and_where(a.e1.clone()); wc().query(d) });
+            pair!("insert.with", { let mut i = Query::insert(); i.into_table(id(&a.t)).columns([id(&a.a)]).select_from(sub(&a)).unwrap(); i.with(wc()) }, { let mut i = Query::insert(); i.into_table(id(&a.t)).columns([id(&a.a)]).select_from(sub(&a)).unwrap(); wc().query(i) });
+            pair!("Query::with", Query::with().cte(CommonTableExpression::new().query(sub(&a)).table_name(id("cte")).to_owned()).to_owned().query(sel(&a)), wc().query(sel(&a)));
+            pair!("update.returning_all", { let mut u = Query::update(); u.table(id(&a.t)).value(id(&a.a), a.v1.clone()).returning_all(); u }, { let mut u = Query::update(); u.table(id(&a.t)).value(id(&a.a), a.v1.clone()).returning(Query::returning().all()); u });
+            pair!("delete.returning_col", { let mut d = Query::delete(); d.from_table(id(&a.t)).and_where(a.e1.clone()).returning_col(id(&a.b)); d }, { let mut d = Query::delete(); d.from_table(id(&a.t)).and_where(a.e1.clone()).returning(Query::returning().column(id(&a.b))); d });
+            pair!("returning.expr", { let mut d = Query::delete(); d.from_table(id(&a.t)).returning(Query::returning().expr(a.e1.clone())); d }, { let mut d = Query::delete(); d.from_table(id(&a.t)).returning(ReturningClause::Exprs(vec![a.e1.clone()])); d });
+            pair!("returning.exprs", { let mut d = Query::delete(); d.from_table(id(&a.t)).returning(Query::returning().exprs([a.e1.clone(), a.e2.clone()])); d }, { let mut d = Query::delete(); d.from_table(id(&a.t)).returning(ReturningClause::Exprs(vec![a.e1.clone(), a.e2.clone()])); d });
+            pair!("returning.columns", { let mut d = Query::delete(); d.from_table(id(&a.t)).returning(Query::returning().columns([id(&a.a), id(&a.b)])); d }, { let mut d = Query::delete(); d.from_table(id(&a.t)).returning(ReturningClause::Columns(vec![id(&a.a).into_column_ref(), id(&a.b).into_column_ref()])); d });
+        }
+        // ---- a CTE named after the select's table, whatever kind of table reference that is
+        {
+            let from = |t: TableRef| { let mut s = Query::select(); s.column(id(&a.a)).from(t); s };
+            let named = |s: SelectStatement, n: &str| WithClause::new().cte(CommonTableExpression::new().query(s).columns([id(&a.a)]).table_name(id(n)).to_owned()).to_owned().query(sel(&a));
+            let auto = |s: SelectStatement| WithClause::new().cte(CommonTableExpression::from_select(s)).to_owned().query(sel(&a));
+            let tn = format!("cte_{}", a.t);
+            let al = format!("cte_{}", a.u);
+            pair!("from_select (schema.table)", auto(from((id("sch"), id(&a.t)).into_table_ref())), named(from((id("sch"), id(&a.t)).into_table_ref()), &tn));
+            pair!("from_select (db.schema.table)", auto(from((id("db"), id("sch"), id(&a.t)).into_table_ref())), named(from((id("db"), id("sch"), id(&a.t)).into_table_ref()), &tn));
+            pair!("from_select (table alias)", auto(from(id(&a.t).into_table_ref().alias(id(&a.u)))), named(from(id(&a.t).into_table_ref().alias(id(&a.u))), &al));
+            pair!("from_select (schema.table alias)", auto(from((id("sch"), id(&a.t)).into_table_ref().alias(id(&a.u)))), named(from((id("sch"), id(&a.t)).into_table_ref().alias(id(&a.u))), &al));
+            pair!("from_select (db.schema.table alias)", auto(from((id("db"), id("sch"), id(&a.t)).into_table_ref().alias(id(&a.u)))), named(from((id("db"), id("sch"), id(&a.t)).into_table_ref().alias(id(&a.u))), &al));
+            // qualified columns give `table_column` names
+            let qsel = || { let mut s = Query::select(); s.column((id(&a.t), id(&a.a))).column((id("sch"), id(&a.t), id(&a.b))).from(id(&a.t)); s };
+            pair!("from_select (qualified columns)", WithClause::new().cte(CommonTableExpression::from_select(qsel())).to_owned().query(sel(&a)),
+                WithClause::new().cte(CommonTableExpression::new().query(qsel()).columns([id(&format!("{}_{}", a.t, a.a)), id(&format!("sch_{}_{}", a.t, a.b))]).table_name(id(&tn)).to_owned()).to_owned().query(sel(&a)));
+        }
+        // ---- expression helpers that exist on both `Expr` and `SimpleExpr`, and the extension traits
+        {
+            use sea_query::extension::postgres::{PgBinOper, PgExpr};
+            use sea_query::extension::sqlite::{SqliteBinOper, SqliteExpr};
+            // a function call keeps exactly the arguments (and argument modifiers) of the last `args` / the accumulated `arg` calls
+            pair!("FunctionCall::args replaces (count_distinct)", wrap(SimpleExpr::from(Func::count_distinct(a.e1.clone()).args([a.e2.clone(), a.e3.clone()])).eq(1)), wrap(SimpleExpr::from(Func::count(a.e2.clone()).arg(a.e3.clone())).eq(1)));
+            pair!("FunctionCall::args replaces (array_agg_distinct)", wrap(SimpleExpr::from(sea_query::extension::postgres::PgFunc::array_agg_distinct(a.e1.clone()).args([a.e2.clone()])).eq(1)), wrap(SimpleExpr::from(sea_query::extension::postgres::PgFunc::array_agg(a.e2.clone())).eq(1)));
+            pair!("FunctionCall::args twice", wrap(SimpleExpr::from(Func::coalesce([a.e1.clone(), a.e2.clone(), a.e3.clone()]).args([a.e2.clone()])).eq(1)), wrap(SimpleExpr::from(Func::coalesce([a.e2.clone()])).eq(1)));
+            pair!("FunctionCall::arg xN = args", wrap(SimpleExpr::from(Func::cust(id("f")).arg(a.e1.clone()).arg(a.e2.clone()).arg(a.e3.clone())).eq(1)), wrap(SimpleExpr::from(Func::cust(id("f")).args([a.e1.clone(), a.e2.clone(), a.e3.clone()])).eq(1)));
+            pair!("SimpleExpr::cast_as", wrap(a.e1.clone().cast_as(id("text")).eq(a.e2.clone())), wrap(SimpleExpr::from(Func::cast_as(a.e1.clone(), id("text"))).eq(a.e2.clone())));
+            pair!("SimpleExpr::like", wrap(SimpleExpr::from(Func::lower(a.e1.clone())).like("a%")), wrap(SimpleExpr::from(Func::lower(a.e1.clone())).binary(BinOper::Like, Expr::val("a%"))));
+            pair!("SimpleExpr::not_like", wrap(SimpleExpr::from(Func::lower(a.e1.clone())).not_like("a%")), wrap(SimpleExpr::from(Func::lower(a.e1.clone())).binary(BinOper::NotLike, Expr::val("a%"))));
+            pair!("SimpleExpr::like escape", wrap(SimpleExpr::from(Func::lower(a.e1.clone())).like(LikeExpr::new("a|%").escape('|'))), wrap(SimpleExpr::from(Func::lower(a.e1.clone())).binary(BinOper::Like, Expr::val("a|%").binary(BinOper::Escape, SimpleExpr::Constant('|'.into())))));
+            pair!("Expr::case", wrap(Into::<SimpleExpr>::into(Expr::case(a.cond.clone(), a.e1.clone()).finally(a.e2.clone())).eq(a.e3.clone())), wrap(Into::<SimpleExpr>::into(CaseStatement::new().case(a.cond.clone(), a.e1.clone()).finally(a.e2.clone())).eq(a.e3.clone())));
+            pair!("Expr::some", wrap(col().ne(Expr::some(sub(&a)))), wrap(col().ne(SimpleExpr::SubQuery(Some(SubQueryOper::Some), Box::new(sub(&a).into_sub_query_statement())))));
+            pair!("Expr::any", wrap(col().eq(Expr::any(sub(&a)))), wrap(col().eq(SimpleExpr::SubQuery(Some(SubQueryOper::Any), Box::new(sub(&a).into_sub_query_statement())))));
+            pair!("Expr::all", wrap(col().gt(Expr::all(sub(&a)))), wrap(col().gt(SimpleExpr::SubQuery(Some(SubQueryOper::All), Box::new(sub(&a).into_sub_query_statement())))));
+            pair!("Expr::exists", wrap(Expr::exists(sub(&a))), wrap(SimpleExpr::SubQuery(Some(SubQueryOper::Exists), Box::new(sub(&a).into_sub_query_statement()))));
+            pair!("Expr::in_subquery", wrap(col().in_subquery(sub(&a))), wrap(col().binary(BinOper::In, SimpleExpr::SubQuery(None, Box::new(sub(&a).into_sub_query_statement())))));
+            pair!("Expr::not_in_subquery", wrap(col().not_in_subquery(sub(&a))), wrap(col().binary(BinOper::NotIn, SimpleExpr::SubQuery(None, Box::new(sub(&a).into_sub_query_statement())))));
+            let pgs: [(&str, fn(SimpleExpr, SimpleExpr) -> SimpleExpr, PgBinOper); 7] = [
+                ("concatenate", |x, r| x.concatenate(r), PgBinOper::Concatenate), ("concat", |x, r| x.concat(r), PgBinOper::Concatenate), ("matches", |x, r| PgExpr::matches(x, r), PgBinOper::Matches),
+                ("contains", |x, r| x.contains(r), PgBinOper::Contains), ("contained", |x, r| x.contained(r), PgBinOper::Contained),
+                ("get_json_field", |x, r| PgExpr::get_json_field(x, r), PgBinOper::GetJsonField), ("cast_json_field", |x, r| PgExpr::cast_json_field(x, r), PgBinOper::CastJsonField)];
+            for (name, f, op) in pgs { pair!(&format!("PgExpr::{name}"), wrap(f(col().into(), a.e1.clone())), wrap(col().binary(op, a.e1.clone()))); }
+            pair!("PgExpr::ilike", wrap(PgExpr::ilike(SimpleExpr::from(col()), "a%")), wrap(col().binary(PgBinOper::ILike, Expr::val("a%"))));
+            pair!("PgExpr::not_ilike", wrap(PgExpr::not_ilike(SimpleExpr::from(col()), "a%")), wrap(col().binary(PgBinOper::NotILike, Expr::val("a%"))));
+            pair!("PgExpr::ilike escape", wrap(PgExpr::ilike(SimpleExpr::from(col()), LikeExpr::new("a|%").escape('|'))), wrap(col().binary(PgBinOper::ILike, Expr::val("a|%").binary(BinOper::Escape, SimpleExpr::Constant('|'.into())))));
+            let sqs: [(&str, fn(SimpleExpr, SimpleExpr) -> SimpleExpr, SqliteBinOper); 4] = [
+                ("glob", |x, r| x.glob(r), SqliteBinOper::Glob), ("matches", |x, r| SqliteExpr::matches(x, r), SqliteBinOper::Match),
+                ("get_json_field", |x, r| SqliteExpr::get_json_field(x, r), SqliteBinOper::GetJsonField), ("cast_json_field", |x, r| SqliteExpr::cast_json_field(x, r), SqliteBinOper::CastJsonField)];
+            for (name, f, op) in sqs { pair!(&format!("SqliteExpr::{name}"), wrap(f(col().into(), a.e1.clone())), wrap(col().binary(op, a.e1.clone()))); }
+        }
+        // ---- the ordering helpers of a window (OrderedStatement for WindowStatement)
+        {
+            let wsel = |w: WindowStatement| { let mut s = Query::select(); s.expr_window(a.e1.clone(), w).from(id(&a.t)); s };
+            let w0 = || { let mut w = WindowStatement::new(); w.partition_by(id(&a.c)); w };
+            pair!("window.partition_by_columns", wsel({ let mut w = WindowStatement::new(); w.partition_by_columns([id(&a.a), id(&a.b)]); w }), wsel({ let mut w = WindowStatement::new(); w.partition_by(id(&a.a)).partition_by(id(&a.b)); w }));
+            pair!("window.order_by_customs", wsel({ let mut w = w0(); w.order_by_customs([("x", Order::Asc), ("y + 1", Order::Desc)]); w }), wsel({ let mut w = w0(); w.order_by_expr(Expr::cust("x"), Order::Asc).order_by_expr(Expr::cust("y + 1"), Order::Desc); w }));
+            pair!("window.order_by_with_nulls", wsel({ let mut w = w0(); w.order_by_with_nulls(id(&a.a), Order::Desc, NullOrdering::First); w }), wsel({ let mut w = w0(); w.order_by_expr_with_nulls(Expr::col(id(&a.a)).into(), Order::Desc, NullOrdering::First); w }));
+            pair!("window.order_by_customs_with_nulls", wsel({ let mut w = w0(); w.order_by_customs_with_nulls([("x", Order::Asc, NullOrdering::Last), ("y", Order::Desc, NullOrdering::First)]); w }), wsel({ let mut w = w0(); w.order_by_expr_with_nulls(Expr::cust("x"), Order::Asc, NullOrdering::Last).order_by_expr_with_nulls(Expr::cust("y"), Order::Desc, NullOrdering::First); w }));
+            pair!("window.order_by_columns_with_nulls", wsel({ let mut w = w0(); w.order_by_columns_with_nulls([(id(&a.a), Order::Asc, NullOrdering::Last), (id(&a.b), Order::Desc, NullOrdering::First)]); w }), wsel({ let mut w = w0(); w.order_by_with_nulls(id(&a.a), Order::Asc, NullOrdering::Last).order_by_with_nulls(id(&a.b), Order::Desc, NullOrdering::First); w }));
+            pair!("window.order_by", wsel({ let mut w = w0(); w.order_by(id(&a.a), Order::Desc); w }), wsel({ let mut w = w0(); w.order_by_expr(Expr::col(id(&a.a)).into(), Order::Desc); w }));
+            pair!("window.clear_order_by", wsel({ let mut w = w0(); w.order_by(id(&a.a), Order::Desc).clear_order_by().order_by(id(&a.b), Order::Asc); w }), wsel({ let mut w = w0(); w.order_by(id(&a.b), Order::Asc); w }));
         }
         pair!("insert.values_panic", { let mut i = Query::insert(); i.into_table(id(&a.t)).columns([id(&a.a), id(&a.b)]).values_panic([a.e1.clone(), a.e2.clone()]); i }, { let mut i = Query::insert(); i.into_table(id(&a.t)).columns([id(&a.a), id(&a.b)]); i.values([a.e1.clone(), a.e2.clone()]).unwrap(); i });
         pair!("insert.returning_col", { let mut i = Query::insert(); i.into_table(id(&a.t)).columns([id(&a.a)]).values_panic([a.e1.clone()]).returning_col(id(&a.b)); i }, { let mut i = Query::insert(); i.into_table(id(&a.t)).columns([id(&a.a)]).values_panic([a.e1.clone()]).returning(Query::returning().column(id(&a.b))); i });
